@@ -85,9 +85,10 @@ func Interpret(stream []byte, lastEventID string, mode Mode) Result {
 	pos := 0
 	// "Streams must be decoded using the UTF-8 decode algorithm", which strips ONE leading
 	// BOM - at offset 0 and nowhere else. Bytes are otherwise not decoded (DESIGN 6.1).
-	if bytes.HasPrefix(stream, bom) {
-		pos = len(bom)
-	}
+	// The BOM is removed from the CONTENT of the first line only; for the block table (what a
+	// scanner has to buffer as a whole) the first line keeps its raw bytes, so a first line
+	// that consists of nothing but the BOM is a non-blank line there.
+	hasBOM := bytes.HasPrefix(stream, bom)
 	idBuf := lastEventID
 	var data []byte
 	typ := ""
@@ -127,6 +128,9 @@ func Interpret(stream []byte, lastEventID string, mode Mode) Result {
 		for i < len(stream) && stream[i] != '\n' && stream[i] != '\r' {
 			i++
 		}
+		if i == len(stream) && pos == 0 && hasBOM && i == len(bom) {
+			break // the stream is just a BOM: an empty stream, which ends cleanly
+		}
 		if i == len(stream) {
 			// unterminated last line: "the incomplete event is not dispatched"
 			res.UnexpectedEOF = true
@@ -134,6 +138,10 @@ func Interpret(stream []byte, lastEventID string, mode Mode) Result {
 			return res
 		}
 		line := stream[pos:i]
+		rawBlank := len(line) == 0
+		if pos == 0 && hasBOM {
+			line = line[len(bom):]
+		}
 		next := i + 1
 		if stream[i] == '\r' && next < len(stream) && stream[next] == '\n' {
 			next++
@@ -141,6 +149,15 @@ func Interpret(stream []byte, lastEventID string, mode Mode) Result {
 		pos = next
 		res.Lines++
 
+		if len(line) == 0 && !rawBlank {
+			// the BOM-only first line: empty for the interpretation (a dispatch with nothing
+			// pending), but it opens a block
+			sawNonBlank = true
+			if mode == Strict {
+				dispatch(pos)
+			}
+			continue
+		}
 		if len(line) == 0 {
 			if sawNonBlank {
 				idx := dispatch(pos)
